@@ -1,6 +1,39 @@
-import RucteModel
+import RucteProofs.GenLemmas
 
-/-! # C17 — placeholder: theorems are added as they are proved. -/
+/-!
+# C17 — every input is announced to cargo for rebuild tracking
+
+The model logs every directory it lists and every file it opens or embeds (`Log.reads`) and every
+line it prints (`Log.stdout`).  `Covered stdout p` is cargo's documented rule: a
+`cargo:rerun-if-changed=q` line was printed for `p` itself or for an ancestor directory of `p`.
+-/
 namespace Ructe.C17
-theorem placeholder : True := trivial
+open Nom
+
+def rerunLine (q : Bytes) : Bytes := str "cargo:rerun-if-changed=" ++ q
+
+/-- `q` is `p` or an ancestor directory of `p` -/
+def IsPrefixPath (q p : Bytes) : Prop := q = p ∨ ∃ rest, p = q ++ [47] ++ rest
+
+def Covered (stdout : List Bytes) (p : Bytes) : Prop := ∃ q, rerunLine q ∈ stdout ∧ IsPrefixPath q p
+
+/-- the invariant: everything read so far is covered by a line printed so far -/
+def Announced (l : Log) : Prop := ∀ p ∈ l.reads, Covered l.stdout p
+
+/-- **announced**: for every build script over `compile_templates`, `add_file`, `add_files`,
+`add_file_as`, `add_files_as` (recursively) and `add_file_data`, on every input tree, every input
+that was listed or read is covered by a `cargo:rerun-if-changed=` line of the same run -/
+theorem announced (ue ua : Nat → Bool) (feat : MimeFeature) (outdir utils : Bytes) (ops : List Op) :
+    Announced (buildLog ue ua feat outdir utils ops) := by
+  intro p hp
+  exact ⟨p, buildLog_ann ue ua feat outdir utils ops p hp, Or.inl rfl⟩
+
+/-- the pinned `add_files_as` printed no line for the directories it lists (finding #6): with
+`dirLine = false` a sub-directory is read but not covered by any line printed by that call -/
+theorem pinned_add_files_as_counterexample :
+    let r := addFilesAs (fun _ => false) (fun _ => false) false {} (Statics.new .off) [100] [] [.dir [115] []]
+    [100, 47, 115] ∈ r.1.reads ∧ r.1.stdout = [] := by
+  intro r
+  simp [r, addFilesAs, Log.read, joinPath]
+
 end Ructe.C17
